@@ -28,6 +28,7 @@ mod c12;
 mod c07;
 mod c17;
 mod c14;
+mod c15;
 mod scen;
 mod wirefmt;
 mod util;
@@ -56,6 +57,9 @@ pub fn exec_line(line: &str) -> Option<String> {
     if matches!(op, "rec-life" | "suppress" | "suppress-msg" | "cache-seq") {
         return c11::exec(op, &mut t);
     }
+    if op == "c15-call" {
+        return c15::exec_call(&mut t);
+    }
     if matches!(op, "rec-compare" | "tiebreak" | "probe-time" | "name-change" | "hostname-change" | "check-name" | "split-sub" | "escaped-labels") {
         return c08::exec(op, &mut t);
     }
@@ -81,7 +85,11 @@ fn arg(args: &[String], name: &str) -> Option<String> {
 const OP_TIMEOUT: Duration = Duration::from_secs(2);
 
 fn main() {
-    std::panic::set_hook(Box::new(|_| {}));
+    if std::env::var_os("VHARNESS_PANIC_MSG").is_some() {
+        std::panic::set_hook(Box::new(|i| eprintln!("panic: {}", i)));
+    } else {
+        std::panic::set_hook(Box::new(|_| {}));
+    }
     let args: Vec<String> = std::env::args().collect();
     let mode = args.get(1).map(String::as_str).unwrap_or("");
     match mode {
@@ -121,6 +129,7 @@ fn main() {
                     "C09" => c07::generate_c09(&mut rng, &tier, &mut emit),
                     "C06" => c07::generate_c06(&mut rng, &tier, &mut emit),
                     "C14" => c14::generate(&mut rng, &tier, &mut emit),
+                    "C15" => c15::generate(&mut rng, &tier, &mut emit),
                     "C17" => c17::generate_c17(&mut rng, &tier, &mut emit),
                     "C20" => c17::generate_c20(&mut rng, &tier, &mut emit),
                     "C08" => c08::generate(&mut rng, &tier, &mut emit),
